@@ -100,6 +100,25 @@ fn gen_field(g: &mut Gen, mel: bool, generics: &[String], prior: &[String]) -> F
 	FieldDef { ty, mode, extra_attrs: vec![] }
 }
 
+pub const INT_TYPES: [&str; 5] = ["u8", "u16", "u32", "u64", "u128"];
+
+fn twin_fields(g: &mut Gen, prev: &[FieldDef]) -> Vec<FieldDef> {
+	prev.iter()
+		.map(|f| {
+			if !INT_TYPES.contains(&f.ty.as_str()) || f.mode == Mode::Skip {
+				return f.clone();
+			}
+			let t = f.ty.clone();
+			let mode = match (g.below(3), &f.mode) {
+				(0, Mode::Plain) | (1, Mode::Compact) => Mode::EncodedAs(format!("Compact<{t}>"), format!("Compact<{t}>")),
+				(0, _) => Mode::Plain,
+				_ => Mode::Compact,
+			};
+			FieldDef { ty: t, mode, extra_attrs: vec![] }
+		})
+		.collect()
+}
+
 fn gen_fields(g: &mut Gen, mel: bool, generics: &[String], prior: &[String]) -> Vec<FieldDef> {
 	let n = match g.below(8) {
 		0 => 0,
@@ -179,7 +198,15 @@ pub fn gen_valid_def(g: &mut Gen, name: &str, mel: bool, prior: &[String]) -> De
 		let use_discr = g.chance(110);
 		let mut variants: Vec<VarDef> = vec![];
 		for i in 0..nvars {
-			let fields = if unit_only { vec![] } else { gen_fields(g, mel, &generics, prior) };
+			let fields = if unit_only {
+				vec![]
+			} else if i > 0 && g.chance(80) && variants[i - 1].fields.iter().any(|f| INT_TYPES.contains(&f.ty.as_str()) && f.mode != Mode::Skip) {
+				// a twin of the previous variant: the same field types in another representation (anything keyed on
+				// the field types alone — caching, de-duplication — must still tell the two apart)
+				twin_fields(g, &variants[i - 1].fields)
+			} else {
+				gen_fields(g, mel, &generics, prior)
+			};
 			let tuple = g.bool();
 			let skip = all_skipped || (nvars <= 8 && g.chance(40));
 			variants.push(VarDef { index_attr: None, discriminant: None, skip, fields, tuple });
